@@ -98,3 +98,23 @@ def _patchset_into_iter(I, a, ci, dt):
 @reg('PatchSet::files')
 def _patchset_files(I, a, ci, dt):
     return _field(a[0], 0)
+
+
+@reg('PatchedFile::path')
+def _pf_path(I, a, ci, dt):
+    """unidiff 0.4.0 PatchedFile::path (transcribed)."""
+    pf = I.load(a[0])
+    src = pf.f[0].b
+    tgt = pf.f[2].b
+
+    def starts(bs, pre):
+        return len(bs) >= len(pre) and I.branch(bytes_equal(bs[:len(pre)], tuple(pre)))
+
+    devnull = tuple(b'/dev/null')
+    if starts(src, b'a/') and starts(tgt, b'b/'):
+        return new_string(I, src[2:])
+    if starts(src, b'a/') and len(tgt) == len(devnull) and I.branch(bytes_equal(tgt, devnull)):
+        return new_string(I, src[2:])
+    if starts(tgt, b'b/') and len(src) == len(devnull) and I.branch(bytes_equal(src, devnull)):
+        return new_string(I, tgt[2:])
+    return new_string(I, src)
